@@ -40,6 +40,17 @@ Theorem C16_setup_never_panics export ts ix : Forall torrent_ok ts -> Forall pat
   exists es ws, populate ix (metadata_table export ts 0) = Ok es /\ work_of es ts = Ok ws.
 Proof. exact (setup_total export ts ix). Qed.
 
+(** FROM THE COMMAND LINE: any list of byte strings given as torrents (loadable or not, repeated, in any order) and any
+    index give a [run_setup] - the premise of every whole-run theorem - under assumptions about the world only. *)
+Theorem C16_every_presented_list_sets_up H content export xs ix f0 :
+  Forall (fun x => len x <= u64max) xs -> index_paths_ok ix ->
+  let ts := distinct_torrents (loaded H xs) in
+  (forall es, populate ix (metadata_table export ts 0) = Ok es ->
+     (forall e, In e es -> N.of_nat (length (content e)) = e_len e) /\ table_functional content es /\
+     alias_free content es f0 /\ forall ws, work_of es ts = Ok ws -> Forall (cr H content) ws) ->
+  exists es ws, run_setup H content export ts ix es ws f0 (map (solve_prog H) ws).
+Proof. exact (run_setup_from_bytes H content export xs ix f0). Qed.
+
 Theorem C16_loaded_paths_ok H x t : len x <= u64max -> load H x = Ok t -> paths_ok t.
 Proof. exact (load_paths_ok H x t). Qed.
 
@@ -50,3 +61,4 @@ Print Assumptions C16_whole_run_no_panic.
 Print Assumptions C16_loaded_torrent_ok.
 Print Assumptions C16_setup_never_panics.
 Print Assumptions C16_loaded_paths_ok.
+Print Assumptions C16_every_presented_list_sets_up.
